@@ -7,6 +7,8 @@
 (* close; the archive handle by mla_archive_close.                                 *)
 (* Faults: "null" = a NULL handle is passed at that call; "cleared" = a handle the  *)
 (* interface has already cleared is passed again; "cbfail" = the write callback     *)
+(* ("cbfail_count": the same, but the failing call ALSO reports a non-zero count of bytes written, as an fwrite-style     *)
+(* callback does)                                                                                                          *)
 (* reports failure once during that call.                                           *)
 (* Specified: no call ever crashes; a call given a NULL / cleared handle returns an  *)
 (* error status and changes nothing (the sequence continues and the archive is       *)
@@ -34,7 +36,7 @@ Init == /\ tpl \in DOMAIN Templates /\ sched \in Schedules /\ decline \in Declin
         /\ fault \in {[k |-> 0, kind |-> "none"]} \cup
                      { [k |-> k, kind |-> f] : k \in 1..Len(Templates[tpl]), f \in FaultKinds }
         /\ (fault.kind = "null" => TakesHandle(Templates[tpl][fault.k]) /\ ~UsesCleared(Templates[tpl][fault.k]))
-        /\ (fault.kind = "cbfail" => Writes(Templates[tpl][fault.k]))
+        /\ (fault.kind \in {"cbfail", "cbfail_count"} => Writes(Templates[tpl][fault.k]))
         \* long templates (a COUNT of files): a fault at one call in twenty is enough
         /\ (Len(Templates[tpl]) > 30 => (fault.k = 0 \/ fault.k % 20 = 5))
         /\ (Len(Templates[tpl]) > 1000 => (fault.k = 0 /\ sched = "all" /\ decline \in {"none", "second"}))
@@ -47,13 +49,13 @@ ExpectAt(i) ==
   \* a NULL handle is first passed at call i (that attempt must be refused and change nothing), then the call is made properly
   \* the write callback is armed to fail once from call fault.k on: the call during which it fires must return an error
   \* (it may fire later than fault.k when the data of that call is still buffered); afterwards nothing is specified
-  ELSE IF fault.kind = "cbfail" /\ i >= fault.k THEN "err_when_fired"
+  ELSE IF fault.kind \in {"cbfail", "cbfail_count"} /\ i >= fault.k THEN "err_when_fired"
   ELSE "ok"
 Run == /\ phase = "init" /\ phase' = "done"
        /\ expect' = [i \in 1..Len(Calls) |-> ExpectAt(i)]
        /\ UNCHANGED <<tpl, fault, sched, decline>>
 Spec == Init /\ [][Run]_vars
 \* the archive must be complete and equal to the ArchiveMap of the template iff no callback failed
-ArchiveComplete == fault.kind # "cbfail"
+ArchiveComplete == fault.kind \notin {"cbfail", "cbfail_count"}
 TypeOK == phase = "done" => \A i \in 1..Len(expect) : expect[i] \in {"ok", "err", "err_when_fired"}
 =============================================================================
